@@ -599,7 +599,26 @@ def _make_pool(td, spec):
     pool = []
     for i, (kind, w, h, seed, *name) in enumerate(spec):
         img = U.noise_image(w, h, seed, "RGBA" if kind.endswith("rgba") else "RGB")
-        if kind.startswith("mem"):
+        if kind in ("openjpeg", "openpng"):
+            # an in-memory image the caller got from PIL's Image.open (it remembers the format of its source file)
+            p = os.path.join(td, f"src{i}." + ("jpg" if kind == "openjpeg" else "png"))
+            img.save(p, format="JPEG" if kind == "openjpeg" else "PNG")
+            o = Image.open(p)
+            o.load()
+            pool.append(dict(kind=kind, image=o, path=None))
+        elif kind == "home":
+            # a file in the caller's home directory, requested as `~/name`
+            os.makedirs(os.path.join(td, "home"), exist_ok=True)
+            p = os.path.join(td, "home", f"h{i}.png")
+            img.save(p, format="PNG")
+            pool.append(dict(kind=kind, image=None, path=p, arg=f"~/h{i}.png"))
+        elif kind == "missing":
+            # a file name under which nothing exists
+            pool.append(dict(kind=kind, image=None, path=os.path.join(td, f"nothing-here-{i}.png"), absent=True))
+        elif kind == "colon":
+            # a name of the form the library reserves for images that are not files (leading colon)
+            pool.append(dict(kind=kind, image=None, path=f":c08:{i}", absent=True))
+        elif kind.startswith("mem"):
             pool.append(dict(kind=kind, image=img, path=None))
         elif kind == "png":
             # an optional 5th element is the file's base name (str as Python sees file names: bytes that are not UTF-8 appear
@@ -627,6 +646,8 @@ def _make_pool(td, spec):
 
 def _expected_token(entry):
     from PIL import Image
+    if entry.get("absent"):
+        return "NO-SUCH-IMAGE", (0, 0), "RGB"       # nothing a terminal could hold matches this
     if entry["image"] is not None:
         img = entry["image"]
     else:
@@ -650,6 +671,7 @@ def check_case(ctx: Ctx, c: dict):
     clock = Clock()
     clock.install()
     U.scrub_env()
+    home0 = os.environ.get("HOME")
     try:
         if c.get("ssh"):
             os.environ["SSH_CONNECTION"] = "1.2.3.4 5 6.7.8.9 22"
@@ -667,6 +689,8 @@ def check_case(ctx: Ctx, c: dict):
             fmts = set(cfg["supported_formats"]) if isinstance(cfg.get("supported_formats"), list) else ({"png", "jpeg"} if tname.startswith("st") else {"png"})
             terms.append(dict(t=t, cmd=cmd, disp=disp, spec=SpecTerminal(f"T{i}", layers=cfg.get("num_tmux_layers", 0), formats=fmts), cpos=0, dpos=0))
         pool = _make_pool(td, c["pool"])
+        if any(e["kind"] == "home" for e in pool):
+            os.environ["HOME"] = os.path.join(td, "home")
         method_cfg = cfg.get("upload_method", "auto")
 
         def _rf(req=None):
@@ -687,6 +711,8 @@ def check_case(ctx: Ctx, c: dict):
                 tx_rf[(spec.name, str(keys["i"]))] = _rf(cur_req[0])
             kd.note_transmit(spec.name, keys)
             ctx.count("medium:" + medium)
+            if spec.formats and "jpeg" in spec.formats:
+                ctx.count("medium:" + medium + ":to-a-terminal-that-decodes-jpeg")
             if medium in ("f", "t"):
                 path = os.fsdecode(bytes(payload))      # file names are bytes; not all are UTF-8
                 if not _rf(cur_req[0]):
@@ -743,6 +769,7 @@ def check_case(ctx: Ctx, c: dict):
             T = terms[ti]["t"]
             acc["bytes"], acc["printed"] = 0, []
             cur_req[0] = req
+            refused_expect = [None]
             kr = None                         # the model request this library call corresponds to (set just before the call)
             kd.begin()
             kw = {}
@@ -755,9 +782,9 @@ def check_case(ctx: Ctx, c: dict):
                     continue
                 if op == "touch":   # rewrite a pool file with new content and a new mtime
                     e = pool[req["img"] % len(pool)]
-                    if e["path"]:
+                    if e["path"] and not e.get("absent"):
                         img = U.noise_image(req["w"], req["h"], req["seed"])
-                        img.save(e["path"], format="PNG" if e["kind"] == "png" else "JPEG")
+                        img.save(e["path"], format="PNG" if e["kind"] in ("png", "home") else "JPEG")
                         st = os.stat(e["path"])
                         os.utime(e["path"], (st.st_atime, st.st_mtime + req.get("dt", 10)))
                     continue
@@ -778,7 +805,7 @@ def check_case(ctx: Ctx, c: dict):
                         kd.env_del(inst[0].id)
                     continue
                 e = pool[req["img"] % len(pool)] if "img" in req else None
-                arg = (e["image"] if e["image"] is not None else e["path"]) if e else None
+                arg = (e["image"] if e["image"] is not None else e.get("arg", e["path"])) if e else None
                 if e and e.get("rel"):
                     # the caller names the file relative to its working directory
                     os.chdir(e["cwd"])
@@ -792,7 +819,10 @@ def check_case(ctx: Ctx, c: dict):
                 if op == "upload_and_display":
                     token, size, mode = _expected_token(e)
                     kr = dict(entry=e, display=True)
+                    # whatever this request prints - also if it ends in an exception - must show the requested image
+                    refused_expect[0] = dict(token=token, size=size, mode=mode, entry=e, is_file=_rf(req), rows=None, cols=None)
                     ph = T.upload_and_display(arg, **kw)
+                    refused_expect[0] = None
                     sync(ti, req, dict(token=token, size=size, mode=mode, entry=e, is_file=_rf(req),
                                        rows=ph.end_row - ph.start_row, cols=ph.end_col - ph.start_col))
                     kd.request(ti, req, **kr, ret=ph.image_id, cmd_bytes=acc["bytes"], printed=acc["printed"], raised=False)
@@ -862,26 +892,51 @@ def check_case(ctx: Ctx, c: dict):
                     raise ValueError(op)
             except FileNotFoundError:
                 ctx.count("exc:FileNotFoundError")   # a touched file whose old instance is redisplayed: the library refuses, nothing is printed
-                sync(ti, req)
+                sync(ti, req, refused_expect[0])
                 _k_raised(kd, kr, ti, req, acc)
             except RuntimeError as ex:
                 ctx.count("exc:RuntimeError")
-                sync(ti, req)
+                sync(ti, req, refused_expect[0])
                 _k_raised(kd, kr, ti, req, acc)
             except UnicodeEncodeError:
                 # a file name that is not UTF-8 cannot be announced by name: the library refuses; nothing may be printed (F, in sync);
                 # the display model does not know file names, so K stops here
                 ctx.count("exc:UnicodeEncodeError")
-                sync(ti, req)
+                sync(ti, req, refused_expect[0])
                 kd.give_up("file-name-not-utf8")
+            except Exception as ex:
+                # any other exception that comes out of the LIBRARY's own code on a request for an image that exists: the display
+                # model knows no such refusal (K); what was printed before it is judged like any print (F, in sync).  An exception
+                # raised by the harness itself is a tool failure and goes up.
+                if kr is None or not _raised_in_library(ex):
+                    raise
+                ctx.count("exc:" + type(ex).__name__)
+                sync(ti, req, refused_expect[0])
+                if e is not None and not e.get("absent"):
+                    ctx.mismatch("display model: the request raised an exception the model has no counterpart for", c,
+                                 {"request": req, "image": e["kind"], "exception": type(ex).__name__ + ": " + str(ex)[:200]}, "displayed / uploaded")
+                kd.give_up("unexpected-exception")
         kd.finish()
         for T in terms:
             T["t"].id_manager.close()
     finally:
         os.chdir(_ORIG_CWD)
+        if home0 is None:
+            os.environ.pop("HOME", None)
+        else:
+            os.environ["HOME"] = home0
         clock.uninstall()
         tempfile.tempdir = None
         shutil.rmtree(td, ignore_errors=True)
+
+
+def _raised_in_library(ex) -> bool:
+    """was the exception raised by a frame of the library under test (not by the harness or by PIL/sqlite called from the harness)?"""
+    import traceback
+    from .common import REPO
+    frames = traceback.extract_tb(ex.__traceback__)
+    lib = str(Path(REPO) / "tupimage") + os.sep
+    return bool(frames) and any(os.path.realpath(f.filename).startswith(os.path.realpath(lib)) for f in frames)
 
 
 def _inst_request(inst, display):
@@ -1145,6 +1200,81 @@ def cases(ctx: Ctx):
             else:
                 reqs.append(dict(op="del", t=t, inst=rng.choice(names)))
         yield dict(k="scenario", terminals=nterm, ssh=ssh, config=cfg, pool=pool, requests=reqs, **({"term_names": term_names} if term_names else {}))
+    # terminal programs that decode different formats on ONE session database, images that must be re-encoded before a file upload
+    # (generated last: the random scenarios above keep the stream of `rng` they always had)
+    yield from format_scenarios(rng, 40 if ctx.quick else 400)
+
+
+def format_scenarios(rng, n):
+    """Directed at the re-encoding decisions of a file upload: at least one terminal program that decodes JPEG (`st…`, or JPEG
+    configured as supported) next to programs that do not, on one session database; the file method (configured, automatic
+    without SSH, or per call over a configured inline method); a file size limit chosen AROUND the pool's sizes - JPEG files
+    of small images are larger than their raw pixels, so there are files over the limit whose pixels are under it (re-encoded
+    without downscaling), files over it in both senses (downscaled) and files under it (announced by name); in-memory images
+    that came from Image.open of a JPEG / PNG file (PIL remembers the source format) next to synthetic ones; names under which
+    no image exists (a missing file, a name with the reserved leading colon).  The same image is requested on every terminal
+    in turn, redisplayed by ID and through its instance."""
+    for _ in range(n):
+        nterm = rng.choice([1, 2, 2, 3])
+        term_names = [rng.choice(["st-256color", "st", "stterm"])] + [rng.choice(["xterm-kitty", "xterm-ghostty", "st-256color", "xterm-256color"])
+                                                                        for _ in range(nterm - 1)]
+        rng.shuffle(term_names)
+        how = rng.choice(["file", "file", "auto", "per-call"])
+        cfg = dict(id_space=rng.choice(["24bit", "32bit", "8bit"]), id_subspace=rng.choice(["0:256", "3:9"]),
+                   upload_method={"file": "file", "auto": "auto", "per-call": "direct"}[how],
+                   file_max_size=rng.choice([150, 200, 300, 500, 700, 800, 1300, 4000]),
+                   stream_max_size=rng.choice([2 * 1024 * 1024, 1200]), max_command_size=4096)
+        r = rng.random()
+        if r < 0.15:
+            term_names = [rng.choice(["xterm-kitty", "xterm-256color"]) for _ in range(nterm)]
+            cfg["supported_formats"] = rng.choice([["png", "jpeg"], ["jpeg", "png"]])      # PNG is the protocol's own format: always listed
+        elif r < 0.25:
+            cfg["supported_formats"] = ["png"]          # the user says: PNG only, whatever the program is called
+        if rng.random() < 0.2:
+            cfg["reupload_max_uploads_ago"] = rng.choice([1, 2])
+        pool = []
+        for _j in range(rng.randrange(2, 6)):
+            kind = rng.choice(["jpeg", "jpeg", "openjpeg", "openjpeg", "png", "openpng", "mem-rgb", "mem-rgba"])
+            w, h = rng.choice([(8, 8), (8, 8), (12, 5), (5, 17), (30, 30), (40, 25)])
+            pool.append([kind, w, h, rng.randrange(1 << 30)])
+        if rng.random() < 0.25:
+            pool.append([rng.choice(["missing", "colon"]), 8, 8, 0])
+        reqs, names = [], []
+        for j in range(rng.randrange(3, 9)):
+            img = rng.randrange(len(pool))
+            geom = rng.choice([{}, dict(cols=rng.randrange(1, 6)), dict(cols=rng.randrange(1, 6), rows=rng.randrange(1, 4))])
+            if pool[img][0] in ("missing", "colon") and rng.random() < 0.7:
+                geom = dict(cols=rng.randrange(1, 6), rows=rng.randrange(1, 4))     # no need to open the image for its size
+            per = {"upload_method": rng.choice(["file", "f"])} if how == "per-call" and rng.random() < 0.8 else {}
+            r = rng.random()
+            if r < 0.6 or not names or pool[img][0] in ("missing", "colon"):
+                # the same image on every terminal in turn (what one program decodes another may not)
+                order = list(range(nterm))
+                rng.shuffle(order)
+                for t in order[:rng.randrange(1, nterm + 1)]:
+                    q = dict(op="upload_and_display", t=t, img=img, **geom, **per)
+                    if rng.random() < 0.15:
+                        q["force_upload"] = True
+                    reqs.append(q)
+                if pool[img][0] not in ("missing", "colon"):
+                    nm = f"f{j}"
+                    reqs.append(dict(op="assign", t=order[0], img=img, name=nm, **geom))
+                    names.append(nm)
+            elif r < 0.75:
+                nm = f"f{j}"
+                t = rng.randrange(nterm)
+                reqs.append(dict(op="upload", t=t, img=img, name=nm, **geom, **per))
+                names.append(nm)
+                reqs.append(dict(op="display_instance", t=t, inst=nm))
+            elif r < 0.85:
+                reqs.append(dict(op="redisplay_id", t=rng.randrange(nterm), inst=rng.choice(names)))
+            elif r < 0.93:
+                reqs.append(dict(op="redisplay_instance", t=rng.randrange(nterm), inst=rng.choice(names), **({"force_upload": True} if rng.random() < 0.4 else {})))
+            else:
+                files = [i for i, (k, *_r) in enumerate(pool) if k in ("png", "jpeg")]
+                if files:
+                    reqs.append(dict(op="touch", img=rng.choice(files), w=rng.choice([6, 9, 20]), h=rng.choice([6, 7, 20]), seed=rng.randrange(1 << 30), dt=10))
+        yield dict(k="scenario", terminals=nterm, ssh=False, config=cfg, pool=pool, requests=reqs, term_names=term_names)
 
 
 def run(ctx: Ctx):
@@ -1152,7 +1282,10 @@ def run(ctx: Ctx):
                 "ID spaces with tiny subspaces (forcing recycling) and large ones; upload method auto/file/direct x SSH on/off; small "
                 "re-upload thresholds (forcing eviction by the adversarial terminal), small size limits (forcing downscaling), tmux layers; "
                 "requests: upload_and_display, upload + display_only of the returned instance, redisplay by ID, clock ticks, file rewrites, "
-                "deletions. distinct = canonical JSON; non-trivial = scenario with >= 3 requests")
+                "deletions; directed format scenarios: terminal programs that decode JPEG (st) next to PNG-only ones / configured format lists on one "
+                "database, file method configured / automatic / per call, file size limits around the pool's file and raw sizes (re-encode without "
+                "and with downscaling, announce by name), JPEG/PNG files, in-memory images from Image.open (source format remembered) and synthetic "
+                "ones, names under which no image exists (missing file, reserved leading colon: nothing may be shown). distinct = canonical JSON; non-trivial = scenario with >= 3 requests")
     cdir = Path(__file__).resolve().parent.parent / "corpus" / "C08"
     if cdir.is_dir():
         for f in sorted(cdir.glob("*.json")):
